@@ -85,6 +85,7 @@ func c12History(c *core.Ctx, curve elliptic.Curve, r *core.Rand, tag string) {
 	ctxBuf := make([]byte, 0, 64)
 	pkObj := &ecdsa.PublicKey{Curve: curve, X: new(big.Int), Y: new(big.Int)}
 	var trace []string
+	onlyBlind := len(tag) > 0 && (tag[len(tag)-1]-'0')%2 == 1
 	steps := 14
 	for step := 0; step < steps; step++ {
 		pi := r.IntN(len(pool))
@@ -120,6 +121,9 @@ func c12History(c *core.Ctx, curve elliptic.Curve, r *core.Rand, tag string) {
 				bad("blind-differs-from-reference", "BlindPublicKeyWithContext is not pk multiplied by hash_to_field(blind key || 0x00 || context) after the calls made before it")
 				stop = true
 				return
+			}
+			if onlyBlind {
+				return // nothing else between two blinding calls
 			}
 			upk, err := ecdsa.UnblindPublicKeyWithContext(curve, bpk, skB, ctx)
 			if err != nil || upk.X.Cmp(px) != 0 || upk.Y.Cmp(py) != 0 {
